@@ -94,7 +94,9 @@ func wrapSyntacticError(state interface {
 				ptr = []byte(Pointer(ptr).Parent()) // problem is with parent array
 			case d.Tokens.Last.isObject():
 				where = "after object value (expecting ',' or '}')"
-				ptr = []byte(Pointer(ptr).Parent()) // problem is with parent object
+				if !d.Tokens.Last.NeedObjectName() { // otherwise ptr already denotes the parent object
+					ptr = []byte(Pointer(ptr).Parent()) // problem is with parent object
+				}
 			}
 		}
 		err = jsonwire.NewInvalidCharacterError(d.buf[pos:], where)
